@@ -1,45 +1,64 @@
-(* C01 (iv) - the xmm save/restore pair mcount_save_arch_context / mcount_restore_arch_context
-   (arch/x86_64/mcount-support.c) as the GENERATED lists arch_ctx_save / arch_ctx_restore of Gen/Stubs.v.
-   Since fix C01-4 the six C hook wrappers bracket their body with this pair, so it is also what a
-   hook call does to xmm0-7 (Machine.v).  Definitions only - no proofs. *)
+(* C01 (iv) - the save/restore pair mcount_save_arch_context / mcount_restore_arch_context
+   (arch/x86_64/mcount-support.c) as the GENERATED lists of Gen/Stubs.v: an SSE pair (used when the ymm
+   state is not enabled) and an AVX pair (used when cpuid/xgetbv say it is).  The six C hook wrappers
+   bracket their body with this pair, so it is also what a hook call does to the vector registers
+   (Machine.v).  A register is modelled with its 256 bits: ((bits 0-63, 64-127), (128-191, 192-255));
+   without AVX only the first pair exists architecturally.  Definitions only - no proofs. *)
 From Coq Require Import ZArith List Bool.
 Require Import UV.C01.Isa UV.Gen.Stubs.
 Import ListNotations.
 Local Open Scope Z_scope.
 
-(* mcount_save_arch_context / mcount_restore_arch_context (arch/x86_64/mcount-support.c), as the
-   generated lists arch_ctx_save / arch_ctx_restore.  ctx->xmm[] is a byte-addressed array of
-   8-byte cells; a register is (low, high). *)
-Definition xfile := nat -> Z * Z.
-Definition xset (x : xfile) (r : nat) (v : Z * Z) : xfile := fun i => if Nat.eqb i r then v else x i.
+Definition yreg := ((Z * Z) * (Z * Z))%type.
+Definition yfile := nat -> yreg.
+Definition xfile := nat -> Z * Z.            (* the 128-bit view used by the stub machine *)
+Definition yset (x : yfile) (r : nat) (v : yreg) : yfile := fun i => if Nat.eqb i r then v else x i.
 Definition cset (c : Z -> Z) (a : Z) (v : Z) : Z -> Z := fun i => if i =? a then v else c i.
 
-Definition full_width (m : xmov) : bool :=
-  match m with Xmovdqu | Xmovups => true | Xmovsd | Xmovq => false end.
-
-Definition xop_exec (slot_bytes : Z) (s : xfile * (Z -> Z)) (o : xop) : xfile * (Z -> Z) :=
+(* ctx->xmm[] is a byte-addressed array of 8-byte cells.
+   Stores write 1 (movsd/movq), 2 (movdqu/movups) or 4 (vmovdqu %ymm) cells.
+   Loads: movsd/movq clear bits 64-127; every legacy-SSE load leaves bits 128-255 as they are;
+   vmovdqu %ymm loads all 256 bits. *)
+Definition xop_exec (slot_bytes : Z) (s : yfile * (Z -> Z)) (o : xop) : yfile * (Z -> Z) :=
   let '(x, c) := s in
   match o with
   | XSave m r k =>
       let off := Z.of_nat k * slot_bytes in
-      if full_width m then (x, cset (cset c off (fst (x r))) (off + 8) (snd (x r)))
-      else (x, cset c off (fst (x r)))                       (* movsd/movq store: low half only *)
+      let a := fst (fst (x r)) in let b := snd (fst (x r)) in
+      let u := fst (snd (x r)) in let v := snd (snd (x r)) in
+      match m with
+      | Xmovsd | Xmovq => (x, cset c off a)
+      | Xmovdqu | Xmovups => (x, cset (cset c off a) (off + 8) b)
+      | Xvmovdqu => (x, cset (cset (cset (cset c off a) (off + 8) b) (off + 16) u) (off + 24) v)
+      end
   | XLoad m k r =>
       let off := Z.of_nat k * slot_bytes in
-      if full_width m then (xset x r (c off, c (off + 8)), c)
-      else (xset x r (c off, 0), c)                          (* movsd/movq load: high half cleared *)
+      match m with
+      | Xmovsd | Xmovq => (yset x r ((c off, 0), snd (x r)), c)
+      | Xmovdqu | Xmovups => (yset x r ((c off, c (off + 8)), snd (x r)), c)
+      | Xvmovdqu => (yset x r ((c off, c (off + 8)), (c (off + 16), c (off + 24))), c)
+      end
   end.
 
-(* save; arbitrary code that may use every xmm register (a script, libc's sscanf); restore *)
-Definition arch_roundtrip (slot_bytes : Z) (save restore : list xop) (x : xfile) (c0 : Z -> Z)
-           (clobber : xfile) : xfile :=
+(* save; arbitrary code that may use every vector register (a script, libc: pxor, vzeroupper, ...); restore *)
+Definition arch_roundtrip (slot_bytes : Z) (save restore : list xop) (x : yfile) (c0 : Z -> Z)
+           (clobber : yfile) : yfile :=
   let '(_, c1) := fold_left (xop_exec slot_bytes) save (x, c0) in
   fst (fold_left (xop_exec slot_bytes) restore (clobber, c1)).
 
-Definition arch_roundtrip_now := arch_roundtrip arch_ctx_slot_bytes arch_ctx_save arch_ctx_restore.
+(* avx = the ymm state is enabled (what mcount_arch_check_avx() detects) *)
+Definition arch_roundtrip_now (avx : bool) : yfile -> (Z -> Z) -> yfile -> yfile :=
+  if avx then arch_roundtrip arch_ctx_slot_bytes arch_ctx_save_avx arch_ctx_restore_avx
+  else arch_roundtrip arch_ctx_slot_bytes arch_ctx_save_sse arch_ctx_restore_sse.
 
-(* the code before the fix: movsd both ways into 8-byte slots *)
+(* bits 0-127 only *)
+Definition lift (x : xfile) : yfile := fun i => (x i, (0, 0)).
+Definition arch_roundtrip128 (avx : bool) (x : xfile) (c0 : Z -> Z) (clobber : xfile) : xfile :=
+  fun i => fst (arch_roundtrip_now avx (lift x) c0 (lift clobber) i).
+
+(* the code before fix C01-1: movsd both ways into 8-byte slots *)
 Definition legacy_save : list xop := map (fun i => XSave Xmovsd i i) (seq 0 8).
 Definition legacy_restore : list xop := map (fun i => XLoad Xmovsd i i) (seq 0 8).
 Definition arch_roundtrip_legacy := arch_roundtrip 8 legacy_save legacy_restore.
-
+(* the code before fix C01-5: the SSE pair also on a machine whose ymm state is live *)
+Definition arch_roundtrip_sse_only := arch_roundtrip_now false.
